@@ -74,7 +74,8 @@ StringDictionaryPFC::StringDictionaryPFC(IteratorDictString *it,
 
     // Checking the available space in textStrings and
     // realloc if required
-    while ((bytesStrings + (2 * lenCurrent)) > reservedStrings)
+    // (a string needs, at most, lenCurrent + 2 bytes: VByte + suffix + '\0')
+    while ((bytesStrings + (2 * lenCurrent) + 2) > reservedStrings)
       reservedStrings = Reallocate(&textStrings, reservedStrings);
 
     if ((elements % bucketsize) == 0) {
